@@ -3817,9 +3817,10 @@ where
         } else if ident_numeric_kind(self.state.cddl, ident).is_some_and(NumericKind::admits_int) {
           Ok(())
         } else if is_ident_time_data_type(self.state.cddl, ident) {
-          if let chrono::LocalResult::None =
-            Utc.timestamp_millis_opt((i128::from(*i) * 1000) as i64)
-          {
+          // a timestamp whose millisecond value does not fit in i64 is out of range
+          let in_range = i64::try_from(i128::from(*i) * 1000)
+            .is_ok_and(|ms| !matches!(Utc.timestamp_millis_opt(ms), chrono::LocalResult::None));
+          if !in_range {
             let i = *i;
             self.add_error(format!(
               "expected time data type, invalid UNIX timestamp {:?}",
@@ -3902,8 +3903,10 @@ where
           1 => {
             if is_ident_time_data_type(self.state.cddl, ident) {
               if let Value::Integer(value) = *value.as_ref() {
-                let dt = Utc.timestamp_opt(value.try_into().unwrap(), 0);
-                if let chrono::LocalResult::None = dt {
+                // integers outside the i64 range cannot be UNIX timestamps
+                let in_range = i64::try_from(value)
+                  .is_ok_and(|secs| !matches!(Utc.timestamp_opt(secs, 0), chrono::LocalResult::None));
+                if !in_range {
                   self.add_error(format!(
                     "expected time data type, invalid UNIX timestamp {:?}",
                     self.cbor
